@@ -221,6 +221,7 @@ def modelO (arg : String) : String :=
   | some r =>
     match Opt.optimize validAll ms 100000 r.song (Opt.initialSubId r.song) [] with
     | .error .missingTrack => "optexc:out_of_range"
+    | .error (.missingDrum p) => s!"opterr:drum_mode_error:_track_*{p}_is_not_defined"
     | .error _ => "MODEL:opt"
     | .ok o =>
       if !o.validated then
